@@ -3,6 +3,7 @@ package main
 import (
 	"fmt"
 	"go/ast"
+	"go/token"
 	"go/types"
 	"sort"
 	"strings"
@@ -161,6 +162,25 @@ func ruleFLAGSYM1(c *Ctx) {
 		}
 		c.Oblige("same-options:"+pr.label, pr.unm.Pos(), diff == 0,
 			fmt.Sprintf("option(s) consulted by only one of the two directions: marshal-only-reads=%s unmarshal-only-reads=%s", ft.Names(m&diff), ft.Names(u&diff)))
+		// companions: a representation option that one direction only honours for a particular Go kind
+		// (`Get(F) && va.Kind() == reflect.Array`) is tied to the same kind in the other direction
+		mc, uc := kindCompanions(p, pr.mar), kindCompanions(p, pr.unm)
+		for _, flag := range sortedU64Keys(mc, uc) {
+			if flag&(oneSided|tolerated) != 0 {
+				continue
+			}
+			a, b := strings.Join(mc[flag], ","), strings.Join(uc[flag], ",")
+			if a == "" && b == "" {
+				continue
+			}
+			_, inM := mc[flag]
+			_, inU := uc[flag]
+			if !inM || !inU {
+				continue
+			}
+			c.Oblige("same-kind-companions:"+pr.label+":"+ft.Names(flag), pr.unm.Pos(), a == b,
+				"option "+ft.Names(flag)+" is honoured for Go kind(s) {"+a+"} when marshaling but for {"+b+"} when unmarshaling: for the kinds on one side only, the two directions use different representations")
+		}
 		// precedence: the representation-selecting options that both directions branch on (if / else-if chains at the
 		// top of the closure) are tested in the same order, so that when two of them are set both directions pick the same one
 		mo, uo2 := branchOrder(p, pr.mar, oneSided|tolerated), branchOrder(p, pr.unm, oneSided|tolerated)
@@ -276,6 +296,7 @@ func formatCases(p *Program, f *FuncInfo) map[string]bool {
 
 func ruleCODEC1(c *Ctx) {
 	codecRFC3339Base(c)
+	codecLooseFirst(c)
 	p := c.P
 	pairs := arshalerPairs(p)
 	nFmt := 0
@@ -580,5 +601,88 @@ func branchOrder(p *Program, f *FuncInfo, ignore uint64) []uint64 {
 			chain(ifs)
 		}
 	}
+	return out
+}
+
+// kindCompanions maps each single option flag read with Get in f to the Go kinds (`X.Kind() == reflect.K`) that are
+// conjoined with that read in the same && chain; a flag read without such a companion maps to an empty list.
+func kindCompanions(p *Program, f *FuncInfo, _ ...int) map[uint64][]string {
+	info := f.Info()
+	out := map[uint64][]string{}
+	seen := map[uint64]map[string]bool{}
+	InspectNoLit(f.Body(), func(n ast.Node) bool {
+		call, ok := n.(*ast.CallExpr)
+		if !ok {
+			return true
+		}
+		m, _, v, ok := FlagCall(info, call)
+		if !ok || m != "Get" {
+			return true
+		}
+		// top of the && chain containing the call
+		var top ast.Node = call
+		for {
+			par := p.Parent(f.File, top)
+			if be, ok := par.(*ast.BinaryExpr); ok && be.Op == token.LAND {
+				top = par
+				continue
+			}
+			if _, ok := par.(*ast.ParenExpr); ok {
+				top = par
+				continue
+			}
+			break
+		}
+		var kinds []string
+		if e, ok := top.(ast.Expr); ok {
+			for _, cj := range conjuncts(e) {
+				be, ok := cj.(*ast.BinaryExpr)
+				if !ok || be.Op != token.EQL {
+					continue
+				}
+				if lc, ok := ast.Unparen(be.X).(*ast.CallExpr); ok {
+					if sel, ok := ast.Unparen(lc.Fun).(*ast.SelectorExpr); ok && sel.Sel.Name == "Kind" {
+						if o := IdentOrSelObj(info, be.Y); o != nil && o.Pkg() != nil && o.Pkg().Path() == "reflect" {
+							kinds = append(kinds, o.Name())
+						}
+					}
+				}
+			}
+		}
+		for b := uint64(2); b != 0; b <<= 1 {
+			if v&^1&b == 0 {
+				continue
+			}
+			if seen[b] == nil {
+				seen[b] = map[string]bool{}
+				out[b] = nil
+			}
+			for _, k := range kinds {
+				if !seen[b][k] {
+					seen[b][k] = true
+					out[b] = append(out[b], k)
+				}
+			}
+		}
+		return true
+	})
+	for b := range out {
+		sort.Strings(out[b])
+	}
+	return out
+}
+
+func sortedU64Keys(ms ...map[uint64][]string) []uint64 {
+	set := map[uint64]bool{}
+	for _, m := range ms {
+		for k := range m {
+			set[k] = true
+		}
+	}
+	var out []uint64
+	for k := range set {
+		out = append(out, k)
+	}
+	sort.Slice(out, func(i, j int) bool { return out[i] < out[j] })
 	return out
 }
